@@ -19,6 +19,7 @@ pub(crate) mod h_coll3;
 pub(crate) mod h_owner;
 pub(crate) mod h_alloc;
 pub(crate) mod h_kernel2;
+pub(crate) mod h_rev;
 
 /// Concrete playback tests of failed obligations (generated on demand by vf/run_kani.py;
 /// the file is empty unless a violation is being replayed).
